@@ -180,6 +180,14 @@ def make_matrix(rng, N, kind):
         A = rng.integers(0, 3, size=(N, N)).astype(float)
         D = np.triu(A, 1)
         D = D + D.T
+    elif kind == "MB":
+        # blocks: within-block distances ~1e-13, between-block ~1e10 (ratio 1e-23: far below any absolute epsilon once inverted)
+        g = rng.integers(0, max(2, N // 4), size=N)
+        A = rng.uniform(0.5, 2.0, size=(N, N))
+        A = np.triu(A, 1)
+        A = A + A.T
+        same = g[:, None] == g[None, :]
+        D = np.where(same, A * 1e-13, A * 1e10)
     elif kind == "MA":
         D = rng.uniform(0.1, 10, size=(N, N))       # asymmetric: D[i][j] != D[j][i]
     elif kind == "ONES":
@@ -223,3 +231,25 @@ def boat():
     path = os.path.join(os.environ.get("OPFMON_REPO", "/repo"), "data", "boat.csv")
     A = np.loadtxt(path, delimiter=",")
     return np.ascontiguousarray(A[:, 2:], dtype=float), A[:, 1].astype(int)
+
+
+def exhaustive_small_graphs(tier, shard, nshards):
+    """Bounded-exhaustive scope for the graph algorithms: EVERY symmetric zero-diagonal weight matrix over a small alphabet
+    (all tie patterns) x EVERY labelling with >= 2 classes (up to renaming, labels 0/1 and one 3-class pattern), as pre-computed
+    cases.  quick: n=3 over {1,2,3}, n=4 over {1,2};  thorough: n=4 over {1,2,3}, n=5 over {1,2}.  Yields (n, D, Y)."""
+    import itertools
+    scopes = [(3, (1.0, 2.0, 3.0)), (4, (1.0, 2.0))] if tier == "quick" else [(4, (1.0, 2.0, 3.0)), (5, (1.0, 2.0))]
+    k = 0
+    for n, alpha in scopes:
+        pairs = [(i, j) for i in range(n) for j in range(i + 1, n)]
+        labelings = [y for y in itertools.product((0, 1), repeat=n) if 0 < sum(y) < n and y[0] == 0]
+        labelings.append(tuple([0, 1, 2] + [int(i % 3) for i in range(n - 3)]))
+        for ws in itertools.product(alpha, repeat=len(pairs)):
+            for y in labelings:
+                k += 1
+                if k % nshards != shard:
+                    continue
+                D = np.zeros((n, n))
+                for (i, j), w in zip(pairs, ws):
+                    D[i, j] = D[j, i] = w
+                yield n, D, list(y)
